@@ -100,6 +100,17 @@ var isTokenTable = [127]bool{
 	'~':  true,
 }
 
+// validHeaderValue reports whether v is a valid header field value
+// (RFC 7230: no control characters except HTAB).
+func validHeaderValue(v string) bool {
+	for i := 0; i < len(v); i++ {
+		if b := v[i]; b < ' ' && b != '\t' || b == 0x7f {
+			return false
+		}
+	}
+	return true
+}
+
 func isToken(r rune) bool {
 	i := int(r)
 	return i < len(isTokenTable) && isTokenTable[i]
